@@ -469,10 +469,13 @@ def rule_r8(ctx):
     for n in astq.walk_fn(uo.node):
         if isinstance(n, ast.Try) and any(astq.call_text(c) == "self._make_request" for s in n.body for c in astq.calls(s)):
             handlers = n.handlers
+    conn_names = set(astq.assigned_from(uo.node, lambda v: isinstance(v, ast.Call) and astq.call_text(v) == "self._get_conn"))
+    if not conn_names:
+        raise AnalysisError("urlopen: local holding the leased connection not found")
     nn = 0
     for h in handlers:
         for node in ast.walk(h):
-            if isinstance(node, ast.Attribute) and isinstance(node.value, ast.Name) and node.value.id == "conn" and isinstance(node.ctx, ast.Load):
+            if isinstance(node, ast.Attribute) and isinstance(node.value, ast.Name) and node.value.id in conn_names and isinstance(node.ctx, ast.Load):
                 prop = m.find_method(f"{CN}.HTTPConnection", node.attr)
                 backing = set()
                 if prop is not None and any("property" in d for d in prop.decorators):
